@@ -8,7 +8,8 @@ import re
 
 from sa.core import Ob
 from sa.pm import AnalysisError, norm, body_nodes
-from sa import gi, df, ru
+from sa import gi, df, ru, sym
+from sa.pm import Undecided
 from sa.gi import IntSet, iv, GuardWalker, SymbolicAtomizer
 
 PARSE = "pycoin/networks/ParseAPI.py"
@@ -49,81 +50,158 @@ def c08_1(ctx):
     if len(cfgs) < 40:
         raise AnalysisError("only %d symbol configurations found" % len(cfgs))
     hrps = {}
-    for sym, (m, call, kw) in cfgs.items():
+    for symb, (m, call, kw) in cfgs.items():
         where = "%s:%d" % (m.relpath, call.lineno)
         for k, v in kw.items():
             if k.endswith("_hex"):
-                ctx.check(_hx(v) is not None and len(v) > 0, "hex:%s:%s" % (sym, k), where, "%s: %s = %r is not a hex literal" % (sym, k, v), what="hex:%s:%s" % (sym, k), sample=None)
+                ctx.check(_hx(v) is not None and len(v) > 0, "hex:%s:%s" % (symb, k), where, "%s: %s = %r is not a hex literal" % (symb, k, v), what="hex:%s:%s" % (symb, k), sample=None)
         a, p, w = _hx(kw.get("address_prefix_hex", "")), _hx(kw.get("pay_to_script_prefix_hex", "")), _hx(kw.get("wif_prefix_hex", ""))
         if a and p:
-            ctx.check(a != p, "p2pkh-vs-p2sh:%s" % sym, where, "%s: P2PKH and P2SH addresses share the version prefix %s: both carry a 20-byte hash, so an address denotes two different scripts" % (sym, a.hex()),
-                      sample={"network": sym, "address_prefix": a.hex(), "pay_to_script_prefix": p.hex(), "wif_prefix": w.hex() if w else None} if sym in ("btc", "polis", "pivx") else None)
+            ctx.check(a != p, "p2pkh-vs-p2sh:%s" % symb, where, "%s: P2PKH and P2SH addresses share the version prefix %s: both carry a 20-byte hash, so an address denotes two different scripts" % (symb, a.hex()),
+                      sample={"network": symb, "address_prefix": a.hex(), "pay_to_script_prefix": p.hex(), "wif_prefix": w.hex() if w else None} if symb in ("btc", "polis", "pivx") else None)
         # same total length + same leading bytes would make two kinds indistinguishable; WIF differs in length (32/33 vs 20) and is separated by the length guards
         for k1, k2 in (("bip32_prv_prefix_hex", "bip32_pub_prefix_hex"), ("bip49_prv_prefix_hex", "bip49_pub_prefix_hex"), ("bip84_prv_prefix_hex", "bip84_pub_prefix_hex")):
             v1, v2 = _hx(kw.get(k1, "")), _hx(kw.get(k2, ""))
             if v1 or v2:
-                ctx.check(bool(v1) and bool(v2) and len(v1) == 4 and len(v2) == 4 and v1 != v2, "extkey-prefix:%s:%s" % (sym, k1[:5]), where,
-                          "%s: %s/%s = %s/%s must be two different 4-byte prefixes" % (sym, k1, k2, kw.get(k1), kw.get(k2)), what="ext:%s:%s" % (sym, k1[:5]), sample=None)
+                ctx.check(bool(v1) and bool(v2) and len(v1) == 4 and len(v2) == 4 and v1 != v2, "extkey-prefix:%s:%s" % (symb, k1[:5]), where,
+                          "%s: %s/%s = %s/%s must be two different 4-byte prefixes" % (symb, k1, k2, kw.get(k1), kw.get(k2)), what="ext:%s:%s" % (symb, k1[:5]), sample=None)
         h = kw.get("bech32_hrp")
         if h is not None:
-            ctx.check(isinstance(h, str) and h == h.lower() and h != "" and all(33 <= ord(c) <= 126 for c in h), "hrp:%s" % sym, where, "%s: bech32_hrp %r is not a lower-case printable string" % (sym, h), sample=None)
-            hrps.setdefault(h, []).append(sym)
+            ctx.check(isinstance(h, str) and h == h.lower() and h != "" and all(33 <= ord(c) <= 126 for c in h), "hrp:%s" % symb, where, "%s: bech32_hrp %r is not a lower-case printable string" % (symb, h), sample=None)
+            hrps.setdefault(h, []).append(symb)
     pre = sorted((a, b) for a in hrps for b in hrps if a != b and b.startswith(a))
     ctx.note("HRP pairs where one is a prefix of the other (so HRP comparison must be equality): %s" % pre[:6])
     ctx.cache["hrp_prefix_pairs"] = pre
     # the configuration reaches the APIs under the same names
     f = ctx.func("pycoin/networks/bitcoinish.py", "create_bitcoinish_network")
-    t = norm(f.node)
-    ctx.check("network.parse = parse_api_class(network, **ui_kwargs)" in t and "network.address = make_address_api(network.contract, **ui_kwargs)" in t and "kwargs[k] = h2b(kwargs[k_hex])" in t, "config-plumbing", ctx.where(f),
-              "create_bitcoinish_network does not hand the same decoded prefixes to the parser and to the address encoder")
+    w = sym.walk(ctx, f)
+    sets = {e.attr: e.value for e in w.effects if e.kind == "setattr" and norm(e.target) == "network"}
+    if "parse" not in sets or "address" not in sets:
+        raise Undecided("create_bitcoinish_network: network.parse / network.address are not assigned directly")
+    a, b = norm(sets["parse"]), norm(sets["address"])
+    ka = {norm(k.value) for c in ast.walk(sets["parse"]) if isinstance(c, ast.Call) for k in c.keywords if k.arg is None}
+    kb = {norm(k.value) for c in ast.walk(sets["address"]) if isinstance(c, ast.Call) for k in c.keywords if k.arg is None}
+    ctx.check(bool(ka) and ka == kb, "config-plumbing", ctx.where(f),
+              "create_bitcoinish_network hands different keyword sets to the parser (%s) and to the address encoder (%s): the prefixes they use can differ" % (a[:60], b[:60]))
+    hexdec = [e for e in w.effects if e.kind == "setitem" and norm(e.value).startswith("h2b(")]
+    ctx.check(bool(hexdec), "config-hex-decoded", ctx.where(f), "create_bitcoinish_network does not decode the *_hex settings with h2b")
+
+
+_REF = None
+
+
+def _ref():
+    global _REF
+    if _REF is None:
+        _REF = ast.parse(open(os.path.join(os.path.dirname(os.path.dirname(os.path.abspath(__file__))), "spec", "ref_address.py")).read())
+    return _REF
+
+
+def _refcheck(ctx, rel, dotted, refname, key, ints=None):
+    return sym.against_reference(ctx, ctx.func(rel, dotted), _ref(), refname, key, ints or (lambda t: False))
 
 
 # ------------------------------------------------------------------ C08.2
-def c08_2(ctx):
-    for fn, attr, builder in (("p2pkh", "self._address_prefix", "for_p2pkh"), ("p2sh", "self._pay_to_script_prefix", "for_p2sh")):
-        f = ctx.func(PARSE, "ParseAPI." + fn)
-        d = df.single_defs(f.node)
-        sz = d.get("size")
-        ctx.check(sz is not None and norm(sz) == "len(%s)" % attr, "prefix-length:%s" % fn, ctx.where(f),
-                  "ParseAPI.%s strips `%s` bytes; the payload starts after the prefix it matched (%s): on networks whose two address prefixes differ in length the hash is cut at the wrong offset"
-                  % (fn, norm(sz) if sz is not None else None, attr), sample={"function": fn, "size": norm(sz) if sz is not None else None})
-        sw = [c for c in df.calls_in(f.node) if df.last_attr(c) == "startswith"]
-        ctx.check(len(sw) == 1 and norm(sw[0].args[0]) == attr, "prefix-matched:%s" % fn, ctx.where(f), "ParseAPI.%s does not match the payload against %s" % (fn, attr))
-        const = ru.const_resolver(ctx, f, {"size"})
-        w = GuardWalker(SymbolicAtomizer(ru.subject({"len(data)"}), const))
-        ex = w.run(f.node.body)
-        acc = [e for e in ex if e.kind == "return" and not (isinstance(e.value, ast.Constant) and e.value.value is None)]
-        s = E
-        for e in acc:
-            s = s | gi.sat_set(e.cond, U, E)
+def _b58_address(ctx, fn, attr, builder):
+    """p2pkh / p2sh: the script builder receives exactly the 20 bytes after the matched prefix"""
+    f = ctx.func(PARSE, "ParseAPI." + fn)
+    w0 = sym.walk(ctx, f)
+    builds = sym.calls_matching(w0, "." + builder)
+    if not builds:
+        raise Undecided("ParseAPI.%s does not call %s" % (fn, builder))
+    D = None
+    for e in builds:
+        arg = e.call.args[0] if e.call.args else None
+        ok = isinstance(arg, ast.Subscript) and isinstance(arg.slice, ast.Slice) and arg.slice.lower is not None and arg.slice.step is None
+        low = norm(arg.slice.lower) if ok else None
+        ctx.check(ok and low == "len(%s)" % attr, "prefix-length:%s" % fn, ctx.where(f, e.node),
+                  "ParseAPI.%s builds the script from `%s`; the payload starts after the prefix it matched (%s): on networks whose two address prefixes differ in length the hash is cut at the wrong offset"
+                  % (fn, norm(arg)[:80] if arg is not None else None, attr), sample={"function": fn, "payload": norm(arg)[:80] if arg is not None else None})
+        if ok:
+            D = norm(arg.value)
+    if D is None:
+        return
+    P = "len(%s)" % attr
+    payload_texts = {"len(%s[%s:])" % (D, P)}
+    l1 = sym.value_leaf(lambda e: norm(e) == "len(%s)" % D, lambda e: ("s", 0) if norm(e) == P else (("s", df.const_int(e.right)) if isinstance(e, ast.BinOp) and isinstance(e.op, ast.Add) and norm(e.left) == P and df.const_int(e.right) is not None else df.const_int(e)))
+    l2 = sym.value_leaf(lambda e: norm(e) in payload_texts, lambda e: ("s", df.const_int(e)) if df.const_int(e) is not None else None)
+
+    def leaf(e, text):
+        r = l1(e, text)
+        return r if r[0] == "set" else l2(e, text)
+    w = sym.walk(ctx, f, leaf)
+    for e in sym.calls_matching(w, "." + builder):
+        s = sym.may_set(e.reach, U, E)
         want = iv(("s", 20), ("s", 20))
-        ctx.check(s == want and len(acc) == 1, "payload-length:%s" % fn, ctx.where(f),
+        ctx.check(s == want, "payload-length:%s" % fn, ctx.where(f, e.node),
                   "ParseAPI.%s accepts payloads of total length %s; an address carries exactly a 20-byte hash after the prefix (%s)" % (fn, s.fmt("len(prefix)"), want.fmt("len(prefix)")),
                   sample={"function": fn, "subject": "len(data)", "accepted": s.fmt("len(prefix)")})
-        bc = [c for c in df.calls_in(f.node) if df.last_attr(c) == builder]
-        ctx.check(len(bc) == 1 and norm(bc[0].args[0]) == "data[size:]", "script-builder:%s" % fn, ctx.where(f), "ParseAPI.%s does not build the script with %s(data[size:])" % (fn, builder))
-    f = ctx.func(PARSE, "ParseAPI._bech32m")
-    w = GuardWalker(ru.opaque)
-    ex = w.run(f.node.body)
-    acc = [e for e in ex if e.kind == "return" and not (isinstance(e.value, ast.Constant) and e.value.value is None)]
-    if len(acc) != 1:
-        raise AnalysisError("_bech32m: expected one accepting return")
-    c = acc[0].cond
-    from rules.C01 import can_be
+        atom = "truthy(%s.startswith(%s))" % (D, attr)
+        ctx.check(sym.entails(e.reach, ("op", atom)), "prefix-matched:%s" % fn, ctx.where(f, e.node), "ParseAPI.%s does not match the payload against %s before building the script" % (fn, attr))
 
-    def refuses(atom):
-        return atom in gi.f_opaques(c) and not can_be(gi.f_and(c, ("op", atom)), "\0")
-    ctx.check(refuses("hr_prefix != self._bech32_hrp") or refuses("self._bech32_hrp != hr_prefix"), "hrp-equality", ctx.where(f),
+
+def address_kinds(f):
+    """the parsers ParseAPI.address tries: an `or` chain of self.<kind>(x) calls, or a loop over a tuple of self.<kind>"""
+    kinds = []
+    for n in ast.walk(f.node):
+        if isinstance(n, ast.BoolOp) and isinstance(n.op, ast.Or):
+            ks = [v.func.attr for v in n.values if isinstance(v, ast.Call) and isinstance(v.func, ast.Attribute) and norm(v.func.value) == "self"]
+            if len(ks) == len(n.values) and len(ks) > len(kinds):
+                kinds = ks
+        if isinstance(n, ast.For) and isinstance(n.iter, (ast.Tuple, ast.List)):
+            ks = [v.attr for v in n.iter.elts if isinstance(v, ast.Attribute) and norm(v.value) == "self"]
+            if len(ks) == len(n.iter.elts) and len(ks) > len(kinds):
+                kinds = ks
+    return kinds
+
+
+def c08_2(ctx):
+    _b58_address(ctx, "p2pkh", "self._address_prefix", "for_p2pkh")
+    _b58_address(ctx, "p2sh", "self._pay_to_script_prefix", "for_p2sh")
+    f = ctx.func(PARSE, "ParseAPI._bech32m")
+    sp = f.params()
+    if len(sp) < 5:
+        raise Undecided("_bech32m signature changed")
+    s_, ver_, len_, attr_ = sp[1:5]
+    DEC = "parse_bech32(%s)" % s_
+    w = sym.int_walk(ctx, f, {"len(%s[2])" % DEC}, {len_})
+    acc = [e for e in w.exits if e.kind == "return" and not (isinstance(e.value, ast.Constant) and e.value.value is None)]
+    if not acc:
+        raise Undecided("_bech32m: no accepting return")
+    c = gi.f_or(*[e.cond for e in acc])
+    ops = gi.f_opaques(c)
+    if not any(DEC in o for o in ops):
+        raise Undecided("_bech32m does not decide on the fields of parse_bech32(%s)" % s_)
+
+    def eq_atom(a, b):
+        return ("op", "%s == %s" % tuple(sorted([a, b])))
+    ctx.check(sym.entails(c, eq_atom("%s[0]" % DEC, "self._bech32_hrp")), "hrp-equality", ctx.where(f),
               "ParseAPI._bech32m does not refuse every address whose human-readable part differs from the network's (guards: %s); networks exist whose HRP is a prefix of another's (%s), so anything weaker than equality accepts foreign addresses"
-              % (gi.f_opaques(c), ctx.cache.get("hrp_prefix_pairs", [])[:3]), sample={"guards": gi.f_opaques(c)})
-    ctx.check(refuses("len(decoded_data) != blob_len"), "program-length", ctx.where(f), "_bech32m does not refuse programs of the wrong length")
-    ctx.check(refuses("expected_version != version") or refuses("version != expected_version"), "witness-version", ctx.where(f), "_bech32m does not refuse other witness versions")
-    for nm, args in (("p2pkh_segwit", "(s, 0, 20, 'for_p2pkh_wit')"), ("p2sh_segwit", "(s, 0, 32, 'for_p2sh_wit')"), ("p2tr", "(s, 1, 32, 'for_p2tr')")):
-        g = ctx.func(PARSE, "ParseAPI." + nm)
-        ctx.check("return self._bech32m%s" % args in norm(g.node), "segwit-kind:%s" % nm, ctx.where(g), "ParseAPI.%s is not _bech32m%s" % (nm, args))
+              % (ops, ctx.cache.get("hrp_prefix_pairs", [])[:3]), sample={"guards": ops})
+    s = sym.may_set(c, U, E)
+    ctx.check(s == iv(("s", 0), ("s", 0)), "program-length", ctx.where(f), "_bech32m accepts programs of length %s, expected exactly %s" % (s.fmt(len_), len_))
+    ctx.check(sym.entails(c, eq_atom("%s[1]" % DEC, ver_)), "witness-version", ctx.where(f), "_bech32m does not refuse other witness versions")
+    v0 = eq_atom("%s[1]" % DEC, "0")
+    b32 = [o for o in ops if "%s[3]" % DEC in o and o.endswith("BECH32") or ("%s[3]" % DEC in o and ".BECH32 ==" in o)]
+    b32m = [o for o in ops if "%s[3]" % DEC in o and "BECH32M" in o]
+    ok = bool(b32) and bool(b32m) and sym.entails(gi.f_and(c, v0), ("op", b32[0])) and sym.entails(gi.f_and(c, gi.f_not(v0)), ("op", b32m[0]))
+    ctx.check(ok, "checksum-variant", ctx.where(f), "_bech32m does not require the bech32 checksum for witness version 0 and bech32m for later versions (BIP350)")
+    for nm in ("p2pkh_segwit", "p2sh_segwit", "p2tr"):
+        _refcheck(ctx, PARSE, "ParseAPI." + nm, "papi_" + nm, "segwit-kind:%s" % nm)
     a = ctx.func(PARSE, "ParseAPI.address")
-    t = norm(a.node)
-    ctx.check("self.p2pkh(ps) or self.p2sh(ps) or self.p2pkh_segwit(ps) or self.p2sh_segwit(ps) or self.p2tr(ps)" in t, "address-dispatch", ctx.where(a), "ParseAPI.address does not try the five address kinds")
+    kinds = address_kinds(a)
+    if not kinds:
+        raise Undecided("ParseAPI.address: the list of address kinds it tries is not recognisable")
+    want = {"p2pkh", "p2sh", "p2pkh_segwit", "p2sh_segwit", "p2tr"}
+    ctx.check(set(kinds) == want, "address-dispatch", ctx.where(a), "ParseAPI.address tries %s, expected the five address kinds %s" % (kinds, sorted(want)))
+    # a verdict cached on the shared string object must not depend on the network
+    from rules.C18 import cache_calls
+    for m, n, key, fn in cache_calls(ctx):
+        if m.relpath != PARSE:
+            continue
+        dep = isinstance(fn, ast.Lambda) and any(isinstance(x, ast.Name) and x.id == "self" for x in ast.walk(fn.body))
+        ctx.check(not dep, "cache-network-independent:%s" % norm(key)[:30], "%s:%d" % (m.relpath, n.lineno),
+                  "ParseAPI caches `%s` on the parseable_str object, which is shared between networks; the cached function reads network state (self.*), so the verdict of one network is returned for another" % norm(key)[:60])
 
 
 # ------------------------------------------------------------------ C08.3
@@ -171,32 +249,9 @@ def c08_3(ctx):
     ctx.check(seen == set(want_placeholder), "template-coverage", ctx.where(f), "info_for_script does not cover %s" % sorted(set(want_placeholder) - seen))
     ms = tp.get("multisig")
     ctx.check(ms is not None and ms[0] == "%d %s %d OP_CHECKMULTISIG", "multisig-builder", CAPI + ":1", "multisig scripts are not built as m <keys> n OP_CHECKMULTISIG")
-    g = ctx.func(AAPI, "AddressAPI.for_script_info")
-    w = GuardWalker(ru.opaque)
-    ex = w.run(g.node.body)
-    route = {}
-    for e in ex:
-        if e.kind == "return" and isinstance(e.value, ast.Call):
-            for o in gi.f_opaques(e.cond):
-                m = re.match(r"type_ == '(\w+)'", o)
-                if m and gi.f_equiv(gi.f_and(e.cond, ("op", o)), e.cond) and sum(1 for o2 in gi.f_opaques(e.cond) if re.match(r"type_ == ", o2) and not _negated(e.cond, o2)) == 1:
-                    route[m.group(1)] = norm(e.value)
-    want = {"p2pkh": "self.for_p2pkh(script_info['hash160'])", "p2pkh_wit": "self.for_p2pkh_wit(script_info['hash160'])", "p2sh_wit": "self.for_p2sh_wit(script_info['hash256'])",
-            "p2sh": "self.for_p2sh(script_info['hash160'])", "p2tr": "self.for_p2tr(script_info['synthetic_key'])"}
-    for k, v in want.items():
-        ctx.check(route.get(k) == v, "address-route:%s" % k, ctx.where(g), "for_script_info routes type %s to `%s`, expected `%s`" % (k, route.get(k), v), sample={"type": k, "route": route.get(k)})
-    for nm, pre, n in (("for_p2pkh", "self._address_prefix", None), ("for_p2sh", "self._pay_to_script_prefix", None)):
-        h = ctx.func(AAPI, "AddressAPI." + nm)
-        ctx.check("return self.b2a(%s + h160)" % pre in norm(h.node) and "if %s is None:" % pre in norm(h.node), "address-encoder:%s" % nm, ctx.where(h), "AddressAPI.%s is not b2a(%s + hash)" % (nm, pre))
-    for nm, ver, ln in (("for_p2pkh_wit", 0, 20), ("for_p2sh_wit", 0, 32), ("for_p2tr", 1, None)):
-        h = ctx.func(AAPI, "AddressAPI." + nm)
-        arg = h.params()[1]
-        ctx.check("return bech32m.encode(self._bech32_hrp, %d, %s)" % (ver, arg) in norm(h.node), "segwit-encoder:%s" % nm, ctx.where(h), "AddressAPI.%s does not encode witness version %d with the network HRP" % (nm, ver))
-
-
-def _negated(cond, atom):
-    from rules.C01 import can_be
-    return not can_be(gi.f_and(cond, ("op", atom)), "\0")
+    _refcheck(ctx, AAPI, "AddressAPI.for_script_info", "aapi_for_script_info", "address-route")
+    for nm in ("for_p2pkh", "for_p2sh", "for_p2pkh_wit", "for_p2sh_wit", "for_p2tr"):
+        _refcheck(ctx, AAPI, "AddressAPI." + nm, "aapi_" + nm, "address-encoder:%s" % nm)
 
 
 # ------------------------------------------------------------------ C08.4
@@ -207,112 +262,39 @@ def c08_4(ctx):
         ctx.bad("minimal-push-definition", "%s:%d" % (CAPI, capi.node.lineno), "ContractAPI has no minimal-push predicate tied to the push encoder (compile_push_data): classification cannot be faithful to for_info's rebuild")
     else:
         op, data = f.params()[1:3]
-        d = df.single_defs(f.node)
-        rets = df.returns_of(f.node)
+        w = sym.walk(ctx, f)
+        rets = [e for e in w.exits if e.kind == "return" and e.value is not None]
         ok = False
+        t = None
         if len(rets) == 1:
-            e = df.expand(rets[0].value, d)
-            t = norm(e)
+            fm = w.atomize(rets[0].value, True)
+            t = repr(fm)
             enc = "self._script_tools.scriptStreamer.compile_push_data(%s)" % data
-            ok = t in ("bool(%s[0] != %s)" % (enc, op), "%s[0] != %s" % (enc, op), "%s != %s[0]" % (op, enc), "bool(%s != %s[0])" % (op, enc), "%s[:1] != bytes([%s])" % (enc, op))
+            want = ("not", ("op", "%s == %s" % tuple(sorted(["%s[0]" % enc, op]))))
+            alt = ("not", ("op", "%s == %s" % tuple(sorted(["%s[:1]" % enc, "bytes([%s])" % op]))))
+            ok = repr(fm) in (repr(want), repr(alt))
         ctx.check(ok, "minimal-push-definition", ctx.where(f),
-                  "_is_nonminimal_push is `%s`; a push is minimal exactly when its opcode is the one the encoder (compile_push_data) would choose for that data, because for_info rebuilds scripts with the encoder"
-                  % (norm(rets[0].value) if rets else None), sample={"definition": norm(df.expand(rets[0].value, d)) if rets else None})
-    m = ctx.func(CAPI, "ContractAPI.match")
-    from sa.gi import FiniteAtomizer
-    from sa.interp import Frame
-    it = ctx.interp
-    mv = it.module(m.module.name)
-    kinds = [b"PUBKEY", b"PUBKEYHASH", b"SEGWIT", b"DATA", b"SYNTHETIC_KEY", b"\x00other"]
-    fa = FiniteAtomizer(kinds, lambda e, v: bool(it.eval(e, Frame(mv, None, {"data2": v}))))
-    w = GuardWalker(fa)
-    w.run(m.node.body)
-    appends = [(st, r) for st, r in w.visits if isinstance(st, ast.Expr) and ".append(data1)" in norm(st)]
-    placeholder = {"r['PUBKEY_LIST']": b"PUBKEY", "r['PUBKEYHASH_LIST']": b"PUBKEYHASH", "r['SEGWIT_LIST']": b"SEGWIT", "r['SYNTHETIC_KEY']": b"SYNTHETIC_KEY", "r['DATA_LIST']": b"DATA"}
-    for st, r in appends:
-        lst = norm(st.value.func.value)
-        if lst == "r['DATA_LIST']":
-            continue
-        nm = "self._is_nonminimal_push(opcode1, data1)"
-        kind = placeholder.get(lst)
-        reached = gi.sat_set(r, fa.univ(), fa.empty()).m
-        with_nonmin = gi.sat_set(gi.f_and(r, ("op", nm)), fa.univ(), fa.empty()).m if nm in gi.f_opaques(r) else reached
-        with_none = gi.sat_set(gi.f_and(r, ("op", "data1 is None")), fa.univ(), fa.empty()).m if "data1 is None" in gi.f_opaques(r) else reached
-        ok = reached == {kind} and kind not in with_nonmin and kind not in with_none
-        ctx.check(ok, "classifier-minimal-push:%s" % lst, ctx.where(m, st), "ContractAPI.match records %s (reached for template placeholders %s) without requiring the minimal push opcode: a non-minimally pushed hash/key is classified as a standard script although rebuilding it gives other bytes"
-                  % (lst, sorted(reached)), sample={"list": lst, "placeholder": kind.decode()})
-    ctx.check(len(appends) >= 5, "classifier-placeholders", ctx.where(m), "ContractAPI.match placeholder branches not found")
-    s, n = E, 0
-    for subj, want in (("l1", None),):
-        pass
-    # placeholder length constraints
-    w2 = GuardWalker(SymbolicAtomizer(ru.subject({"l1"}), lambda e: int(v) if (v := _num(e)) is not None else None))
-    w2.run(m.node.body)
-    got = {}
-    for st, r in w2.visits:
-        if isinstance(st, ast.Expr) and ".append(data1)" in norm(st):
-            got[norm(st.value.func.value)] = gi.sat_set(r, U, E, assume={"data1 is None": False})
-    want = {"r['PUBKEY_LIST']": iv(33, 120), "r['PUBKEYHASH_LIST']": iv(20, 20), "r['SEGWIT_LIST']": iv(20, 20) | iv(32, 32), "r['SYNTHETIC_KEY']": iv(32, 32)}
-    for k, v in want.items():
-        ctx.check(got.get(k) == v, "placeholder-length:%s" % k, ctx.where(m), "match accepts %s of lengths %s, expected %s" % (k, got.get(k).fmt() if k in got else None, v.fmt()), sample={"placeholder": k, "lengths": got.get(k).fmt() if k in got else None})
-    ctx.check("elif (opcode1, data1) != (opcode2, data2):" in norm(m.node), "literal-opcodes-compared", ctx.where(m), "match does not compare non-placeholder instructions exactly")
-    g = ctx.func(CAPI, "ContractAPI._info_from_multisig_script")
-    t = norm(g.node)
-    ctx.check("if self._is_nonminimal_push(opcode, data):" in t, "multisig-minimal-keys", ctx.where(g), "the multisig classifier accepts non-minimally pushed keys")
-    const = ru.const_resolver(ctx, g, set(), extra=lambda e: {"OP_1": 81, "OP_16": 96}.get(norm(e)))
-    w3 = GuardWalker(SymbolicAtomizer(ru.subject({"opcode"}), const))
-    ex = w3.run(g.node.body)
-    acc = [e for e in ex if e.kind == "return" and isinstance(e.value, ast.Call)]
-    s = E
-    for e in acc:
-        s = s | gi.sat_set(e.cond, U, E)
-    # `opcode` is re-read several times; the accepted set is the intersection of all range tests and the final equality with CHECKMULTISIG is opaque
-    rng = [n_ for n_ in body_nodes(g.node) if isinstance(n_, ast.If) and "OP_1 <= opcode" in norm(n_.test)]
-    ctx.check(len(rng) == 2 and norm(rng[1].test) == "not OP_1 <= opcode <= OP_16", "multisig-n-range", ctx.where(g), "the multisig classifier does not require the key-count opcode to be OP_1..OP_16 (tests: %s)" % [norm(r.test) for r in rng],
-              sample={"range_tests": [norm(r.test) for r in rng]})
-    ctx.check("if m > n or len(sec_keys) != n:" in t and "if opcode != OP_CHECKMULTISIG:" in t and "if pc != len(script):" in t, "multisig-shape", ctx.where(g), "the multisig classifier does not check m <= n == number of keys, the final opcode and the script end")
-
-
-def _num(e):
-    v = df.const_int(e)
-    if v is not None:
-        return v
-    if isinstance(e, ast.BinOp) and isinstance(e.op, ast.Div):
-        a, b = df.const_int(e.left), df.const_int(e.right)
-        if a is not None and b and a % b == 0:
-            return a // b
-    return None
+                  "_is_nonminimal_push is `%s`; a push is minimal exactly when its opcode is the one the encoder (compile_push_data) would choose for that data, because for_info rebuilds scripts with the encoder" % t,
+                  sample={"definition": t})
+    ints = lambda t: t in ("l1", "pc1", "pc2", "pc", "m", "n", "opcode", "size", "OP_1", "OP_16") or t.startswith(("len(", "script_tools.int_for_opcode(", "self._script_tools.int_for_opcode(")) or t.endswith(")[0]") or t.endswith(")[2]")
+    _refcheck(ctx, CAPI, "ContractAPI.match", "capi_match", "classifier", ints)
+    _refcheck(ctx, CAPI, "ContractAPI._info_from_multisig_script", "capi_multisig", "multisig-classifier", ints)
 
 
 # ------------------------------------------------------------------ C08.5
 def c08_5(ctx):
-    k = ctx.func(KEY, "Key.address")
-    ctx.check("return self._network.address.for_p2pkh(self.hash160(is_compressed=is_compressed))" in norm(k.node), "key-address", ctx.where(k), "Key.address is not the P2PKH address of hash160(sec)")
-    h = ctx.func(KEY, "Key.hash160")
-    t = norm(h.node)
-    ctx.check("self._hash160_compressed = hash160(self.sec(is_compressed=is_compressed))" in t and "self._hash160_uncompressed = hash160(self.sec(is_compressed=is_compressed))" in t, "key-hash160", ctx.where(h), "Key.hash160 is not hash160 of the SEC encoding with the requested compression")
-    w = GuardWalker(ru.opaque)
-    ex = w.run(h.node.body)
-    rc = [e for e in ex if e.kind == "return" and norm(e.value) == "self._hash160_compressed"]
-    ru_ = [e for e in ex if e.kind == "return" and norm(e.value) == "self._hash160_uncompressed"]
-    from rules.C01 import can_be
-    ok = len(rc) == 1 and len(ru_) == 1 and not can_be(gi.f_and(rc[0].cond, ("not", ("op", "is_compressed"))), "\0") and not can_be(gi.f_and(ru_[0].cond, ("op", "is_compressed")), "\0")
-    ctx.check(ok, "hash160-memo-by-compression", ctx.where(h), "Key.hash160 returns the memo of the other compression form")
-    b49 = ctx.func("pycoin/key/BIP49Node.py", "BIP49Node.address")
-    t = norm(b49.node)
-    ctx.check("underlying_script = self._network.contract.for_p2pkh_wit(pk_hash)" in t and "return self._network.address.for_p2s(underlying_script)" in t, "bip49-address", ctx.where(b49), "BIP49 address is not P2SH(P2WPKH(hash160))")
-    b84 = ctx.func("pycoin/key/BIP84Node.py", "BIP84Node.address")
-    ctx.check("return self._network.address.for_p2pkh_wit(pk_hash)" in norm(b84.node), "bip84-address", ctx.where(b84), "BIP84 address is not P2WPKH(hash160)")
-    c = ctx.func(CAPI, "ContractAPI.for_p2s")
-    ctx.check("return self.for_p2sh(hash160(underlying_script))" in norm(c.node), "p2s-script", ctx.where(c), "for_p2s is not P2SH of hash160(script)")
-    a = ctx.func(AAPI, "AddressAPI.for_p2s")
-    ctx.check("return self.for_p2sh(hash160(script))" in norm(a.node), "p2s-address", ctx.where(a), "AddressAPI.for_p2s is not the P2SH address of hash160(script)")
+    _refcheck(ctx, KEY, "Key.address", "key_address", "key-address")
+    _refcheck(ctx, KEY, "Key.hash160", "key_hash160", "key-hash160")
+    _refcheck(ctx, "pycoin/key/BIP49Node.py", "BIP49Node.address", "bip49_address", "bip49-address")
+    _refcheck(ctx, "pycoin/key/BIP84Node.py", "BIP84Node.address", "bip84_address", "bip84-address")
+    _refcheck(ctx, CAPI, "ContractAPI.for_p2s", "capi_for_p2s", "p2s-script")
+    _refcheck(ctx, AAPI, "AddressAPI.for_p2s", "aapi_for_p2s", "p2s-address")
 
 
 OBLIGATIONS = [
     Ob("C08.1", "all symbol configurations: hex literals, P2PKH != P2SH prefix, extended-key prefixes, HRPs", c08_1, floor=150, engines="TB", exhaustive=True, breaks_if="a network whose two address prefixes collide"),
-    Ob("C08.2", "payload length == prefix length + 20 with the matched prefix; HRP equality; segwit kinds", c08_2, floor=14, engines="GI,DF", breaks_if="MZC / PIVX (prefixes of different length); bc vs bcrt"),
-    Ob("C08.3", "builder templates equal matcher templates; type -> address routing", c08_3, floor=16, engines="SIB,CE"),
-    Ob("C08.4", "classification requires the encoder's minimal push; placeholder lengths; multisig n range", c08_4, floor=12, engines="DF,GI", breaks_if="76..120-byte keys pushed with PUSHDATA2/4"),
-    Ob("C08.5", "key -> address routing (P2PKH, BIP49, BIP84), hash160 memo per compression form", c08_5, floor=7, engines="DF,CG"),
+    Ob("C08.2", "payload = the 20 bytes after the matched prefix; HRP equality, program length, version, checksum variant; address kinds; no network-dependent verdict cached on the shared string", c08_2, floor=14, engines="SYM,GI", breaks_if="MZC / PIVX (prefixes of different length); bc vs bcrt"),
+    Ob("C08.3", "builder templates equal matcher templates; type -> address routing and encoders equal the reference", c08_3, floor=12, engines="SIB,CE,SYM"),
+    Ob("C08.4", "minimal push = the encoder's opcode; template matcher and multisig classifier equal the reference transcription", c08_4, floor=3, engines="SYM", breaks_if="76..120-byte keys pushed with PUSHDATA2/4"),
+    Ob("C08.5", "key -> address routing (P2PKH, BIP49, BIP84), hash160 memo per compression form", c08_5, floor=6, engines="SYM"),
 ]
